@@ -7,6 +7,25 @@ compared with its model (so a mutation of one vector that shows up in a copy / a
 created vector is seen), the class invariant and the flatten laws are evaluated through the public
 API, and the storage of all live vectors is checked to be disjoint.  Wrappers on the public methods
 evaluate the class invariant after every outermost public call as well (views and copies included).
+
+Observer effect.  The dense monitor above *reads* the vector after every operation (shape, fields,
+units, data, metadata, flatten(), v[name].flatten() for every field, in field order).  Anything the
+library computes lazily and repairs on a read is therefore healed by the monitor before it can do
+harm: a name->column table rebuilt on lookup, a cached flattened array / row count / total length, a
+cached schema tuple, lazily materialised cells or padding columns, a deferred add/remove_fields that is
+applied on first access.  Every history is therefore also run in a *sparse* mode (spec "obs": "sparse"):
+the model is stepped in lock-step, the operations still compare their own return values, but the
+harness touches no public attribute or method of any live vector between operations (the invariant
+wrappers are switched off as well) and the full comparison happens once, at the end of the history.
+The composite operations `schema_churn` ([by-name access,] remove k fields, add k fields[, by-name
+access / arithmetic / write-back], nothing observed in between) and `flatten_modify_restore`
+(saved = v[f].flatten(); v[f] op= c; v[f].set_flattened(saved) -- on the whole vector and on a one-cell
+block view) put the histories that such caches and fast paths need into every depth of the enumeration.
+Arrays returned by Vector.flatten() / v[f].flatten() (new arrays by contract, unlike slicing views and
+get_data cells, which share storage by design) are kept together with a snapshot and must still equal
+it after every later operation (`returned_value_changed`).  What sparse mode cannot see: a defect that
+manifests and is healed again between two operations of the history without ever reaching a returned
+value or the final state.
 """
 from __future__ import annotations
 
@@ -28,17 +47,19 @@ ALPHABET = [
     "flatten", "field_flatten", "field_roundtrip", "field_set_flat", "field_assign", "field_getitem",
     "add_field_str", "add_fields_list", "remove_field_str", "remove_fields_list",
     "copy", "new_vector", "metadata_write", "invalid_set", "invalid_fields", "invalid_index",
+    "schema_churn", "flatten_modify_restore",
 ]  # fmt: skip
-SCHEMA_OPS = {"add_field_str", "add_fields_list", "remove_field_str", "remove_fields_list"}
+SCHEMA_OPS = {"add_field_str", "add_fields_list", "remove_field_str", "remove_fields_list", "schema_churn"}
 SLICE_OPS = {"get_slice", "get_short", "get_list", "get_data_fancy", "set_slice_list", "set_slice_vector", "set_list_list", "set_data_fancy", "field_getitem"}
 IOPS = ["iadd", "isub", "imul", "itruediv", "ifloordiv", "imod", "ipow"]
 
 RULE = (
     "bounded-exhaustive sequences over a %d-operation alphabet (all sequences of length <=2 quick / <=3 thorough) x 1, 2, 3 fixed "
-    "dimensions, plus seeded random histories of depth 15 (every tenth: 40); every history starts from a randomly shaped (sizes 1-4), randomly "
+    "dimensions, each run densely observed (full comparison after every operation) and sparsely observed (no read of any live vector "
+    "between operations, full comparison at the end), plus seeded random histories of depth 15 (every tenth: 40), half of them sparse; every history starts from a randomly shaped (sizes 1-4), randomly "
     "populated vector (0-5 rows per cell, unset cells, float or int cells) and operation parameters (indices, values, field "
     "names) are drawn from the case seed. non-trivial = two populated cells with different row counts existed and the history "
-    "contains a schema change or a block (slice/list) access; distinct = (number of fixed dimensions, operation-kind sequence)" % len(ALPHABET)
+    "contains a schema change or a block (slice/list) access; distinct = (number of fixed dimensions, observation mode, operation-kind sequence)" % len(ALPHABET)
 )
 ASSUMPTIONS = [
     "index expressions use int / slice / at most one list-or-array per expression (several lists have no agreed meaning: numpy pairs them, Vector crosses them); no empty selections (a Vector cannot have a zero-length axis); Ellipsis and more indices than axes are not generated",
@@ -53,20 +74,22 @@ ASSUMPTIONS = [
 ]
 BUDGET = {"quick": {"soft_s": 150}, "thorough": {"soft_s": 900}}
 MIN_EVALUATIONS = {"quick": 2000, "thorough": 50000}
-REQUIRED_COUNTERS = ["eval:state_mismatch", "eval:class_invariant", "eval:result_mismatch", "eval:flatten_law", "eval:shared_storage", "eval:bystander_changed", "eval:exception", "eval:invalid_accepted", "eval:metadata_leak"]
+REQUIRED_COUNTERS = ["eval:state_mismatch", "eval:class_invariant", "eval:result_mismatch", "eval:flatten_law", "eval:shared_storage", "eval:bystander_changed", "eval:exception", "eval:invalid_accepted", "eval:metadata_leak", "eval:returned_value_changed"]
 EXHAUSTIVE = {"quick": False, "thorough": False}
 
 
 def plan(tier, seed):
+    """every enumerated sequence is run densely observed and sparsely observed (see the module docstring)"""
     specs = []
     nrand = 1500 if tier == "quick" else 60000
     for i in range(nrand):
-        specs.append({"kind": "rand", "ndim": 1 + i % 3, "depth": 15 if i % 10 else 40})
+        specs.append({"kind": "rand", "ndim": 1 + i % 3, "depth": 15 if i % 10 else 40, "obs": "sparse" if (i // 3) % 2 else "dense"})
     depth = 2 if tier == "quick" else 3
     for nd in (1, 2, 3):
         for d in range(1, depth + 1):
             for seq in itertools.product(ALPHABET, repeat=d):
-                specs.append({"kind": "exh", "ndim": nd, "ops": list(seq)})
+                for obs in ("dense", "sparse"):
+                    specs.append({"kind": "exh", "ndim": nd, "ops": list(seq), "obs": obs})
     return specs
 
 
@@ -247,8 +270,8 @@ def _rand_cell(rng, nf, kind, rows=None):
 def _rand_shape(rng, nd):
     while True:
         shape = tuple(int(x) for x in rng.integers(1, 5, size=nd))
-        if max(shape) >= 2 and int(np.prod(shape)) <= 36:
-            return shape
+        if int(np.prod(shape)) <= 36 and (max(shape) >= 2 or rng.random() < 0.15):
+            return shape  # (a few one-cell vectors: shape (1,), (1, 1), (1, 1, 1))
 
 
 def _axis(rng, n, kind, unique=False, minlen=1):
@@ -298,9 +321,13 @@ class Sess:
         self.ragged = False
         self.kind = "float"
         self.done_ops = []
+        self.sparse = False  # True: no read of a live vector between operations
+        self.held = []  # arrays the API returned as new arrays: [array, snapshot, description, op]
+        self.held_mon = []  # same, from the dense monitor's own reads (replaced at every step)
+        self.meta_serial = 0
 
     def fields(self, **kw):
-        f = {"op": self.op, "ndim": len(self.live[self.cur][1].shape) if self.live else self.ndim}  # ndim of the vector operated on
+        f = {"op": self.op, "ndim": len(self.live[self.cur][1].shape) if self.live else self.ndim, "obs": "sparse" if self.sparse else "dense"}  # ndim of the vector operated on
         f.update(self.extra)
         f.update(kw)
         return f
@@ -350,10 +377,35 @@ class Sess:
             return self.ctx.check(d is None, "result_mismatch", lambda: "%s: %s" % (what, d), part="block", **f)
         return self.ctx.check(_same(res, mres), "result_mismatch", lambda: "%s returned %s, expected %s" % (what, _brief(res), _brief(mres)), part="cell", **f)
 
-    # ---- after every operation -------------------------------------------------------------------
+    # ---- returned values that must be new arrays ---------------------------------------------------
+    def hold(self, arr, what, monitor=False):
+        if isinstance(arr, np.ndarray):
+            lst = self.held_mon if monitor else self.held
+            lst.append([arr, arr.copy(), what, self.op])
+            if not monitor and len(lst) > 6:
+                del lst[0]
+
+    def check_held(self):
+        """touches only arrays the harness holds, never a vector"""
+        for lst in (self.held, self.held_mon):
+            for e in list(lst):
+                ok = self.ctx.check(_same(e[0], e[1]), "returned_value_changed", lambda: "the array returned by %s (during %s) changed under a later operation (%s): was %s, is %s" % (e[2], e[3], self.op, _brief(e[1]), _brief(e[0])), source=e[2].split("(")[0], **self.fields())
+                if not ok:
+                    lst.remove(e)
+
+    def note_model(self):
+        if not self.ragged:
+            for r, m in self.live:
+                rows = {m.cells[ix].shape[0] for ix in m.populated()}
+                if len(rows) >= 2:
+                    self.ragged = True
+
+    # ---- after every operation (dense) / at the end of the history (sparse) -------------------------
     def post_step(self, mutated):
         ctx = self.ctx
         ctx.state["quiet"] += 1
+        self.check_held()
+        self.held_mon = []
         try:
             for j, (r, m) in enumerate(self.live):
                 if not _class_invariant(ctx, r, self.fields, "step"):
@@ -366,18 +418,35 @@ class Sess:
                     if nm is None:
                         self.abort = True
                     else:
+                        nm.meta_own, nm.meta_allowed = getattr(m, "meta_own", set()), getattr(m, "meta_allowed", set())
                         self.live[j][1] = nm
                     continue
                 self.flatten_laws(r, m)
             if len(self.live) > 1 or mutated:
                 self.storage()
-            if not self.ragged:
-                for r, m in self.live:
-                    rows = {m.cells[ix].shape[0] for ix in m.populated()}
-                    if len(rows) >= 2:
-                        self.ragged = True
+            self.metadata_keys()
+            self.note_model()
         finally:
             ctx.state["quiet"] -= 1
+
+    def metadata_keys(self):
+        """keys the harness wrote into one vector's metadata must be there and must not be in a vector that is neither
+        that vector nor a later copy of it (whether copy() carries metadata over is not judged)"""
+        written = set()
+        for r, m in self.live:
+            written |= getattr(m, "meta_own", set())
+        if not written:
+            return
+        for j, (r, m) in enumerate(self.live):
+            try:
+                keys = set(r.metadata)
+            except Exception as e:  # noqa: BLE001
+                self.ctx.check(False, "metadata_leak", "reading metadata raised %r" % (e,), what="metadata", **self.fields())
+                continue
+            foreign = (keys & written) - getattr(m, "meta_allowed", set())
+            self.ctx.check(not foreign, "metadata_leak", lambda: "metadata of a live vector holds key(s) %s written to another vector" % sorted(foreign), what="metadata", **self.fields())
+            lost = getattr(m, "meta_own", set()) - keys
+            self.ctx.check(not lost, "metadata_leak", lambda: "metadata key(s) %s written to this vector are gone" % sorted(lost), what="metadata", lost=True, **self.fields())
 
     def flatten_laws(self, r, m):
         ctx = self.ctx
@@ -388,12 +457,14 @@ class Sess:
         if self.expect_ok(exc, "flatten()"):
             want = np.concatenate(cells, axis=0) if cells else np.empty((0, nf))
             ctx.check(isinstance(flat, np.ndarray) and _same(flat, want), "flatten_law", lambda: "Vector.flatten() = %s, row-major concatenation = %s" % (_brief(flat), _brief(want)), law="vector_flatten", **f)
+            self.hold(flat, "Vector.flatten()", monitor=True)
         for k, name in enumerate(m.fields):
             col, exc = self.call(lambda: r[name].flatten())
             if not self.expect_ok(exc, "v[%r].flatten()" % name):
                 continue
             want = np.concatenate([c[:, k] for c in cells]) if cells else np.empty((0,))
             ctx.check(isinstance(col, np.ndarray) and col.ndim == 1 and _same(col, want), "flatten_law", lambda: "v[%r].flatten() = %s, row-major concatenation of column %d = %s" % (name, _brief(col), k, _brief(want)), law="field_flatten", **f)
+            self.hold(col, "v[f].flatten()", monitor=True)
 
     def storage(self):
         """no list / dict / array storage may be shared between two live vectors"""
@@ -822,6 +893,7 @@ def _op_flatten(S):
     if S.expect_ok(exc, "flatten()"):
         want = m.flatten()
         S.ctx.check(isinstance(res, np.ndarray) and res.ndim == 2 and _same(res, want), "result_mismatch", lambda: "flatten() = %s, model %s" % (_brief(res), _brief(want)), part="flatten", **S.fields())
+        S.hold(res, "Vector.flatten()")
     return False
 
 
@@ -832,6 +904,7 @@ def _op_field_flatten(S):
     if S.expect_ok(exc, "v[%r].flatten()" % name):
         want = m.field_flatten(name)
         S.ctx.check(isinstance(res, np.ndarray) and _same(res, want), "result_mismatch", lambda: "v[%r].flatten() = %s, model %s" % (name, _brief(res), _brief(want)), part="field_flatten", **S.fields())
+        S.hold(res, "v[f].flatten()")
     return False
 
 
